@@ -87,14 +87,46 @@ type Desc struct {
 	Sl    []int   `json:"slice,omitempty"` // vector: Slice(i,j) of the base
 	Path  []Step  `json:"path,omitempty"`  // matrix: view path
 	Val   float64 `json:"value,omitempty"` // scalar value
+	// Dz: content of the ZERO-valued cells (those not in Mask; scalars: Val must be 0) of Real-typed
+	// objects: 0 plain zero | 1 value 0 with a non-zero gradient | 2 value 0, zero gradient, Hessian
+	// non-zero on the diagonal only | 3 value 0, zero gradient, Hessian non-zero off the diagonal only
+	Dz int `json:"zero_cells,omitempty"`
+}
+
+// setDerivOnly gives a zero-valued Real scalar derivative-only content of kind dz
+func setDerivOnly(s ad.Scalar, dz, seed int) {
+	m, ok := s.(ad.MagicScalar)
+	if !ok || dz == 0 {
+		return
+	}
+	switch dz {
+	case 1:
+		m.Alloc(2, 1)
+		m.SetDerivative(seed%2, float64(seed+1))
+	case 2:
+		m.Alloc(2, 2)
+		m.SetHessian(0, 0, 2)
+		m.SetHessian(1, 1, float64(seed+3))
+	case 3:
+		m.Alloc(2, 2)
+		m.SetHessian(0, 1, float64(seed+2))
+		m.SetHessian(1, 0, float64(seed+2))
+	}
+}
+
+func dzStr(dz int) string {
+	if dz == 0 {
+		return ""
+	}
+	return " zero-cells=" + []string{"", "gradient-only", "hessian-diagonal-only", "hessian-offdiagonal-only"}[dz]
 }
 
 func (d Desc) String() string {
 	switch d.Kind {
 	case "scalar":
-		return fmt.Sprintf("%s(%v,order=%d)", d.Typ, d.Val, d.Order)
+		return fmt.Sprintf("%s(%v,order=%d)%s", d.Typ, d.Val, d.Order, dzStr(d.Dz))
 	case "vector":
-		s := fmt.Sprintf("%s %s vector n=%d mask=%b order=%d", d.Sto, d.Typ, d.N, d.Mask, d.Order)
+		s := fmt.Sprintf("%s %s vector n=%d mask=%b order=%d%s", d.Sto, d.Typ, d.N, d.Mask, d.Order, dzStr(d.Dz))
 		if d.Sl != nil {
 			s += fmt.Sprintf(".Slice(%d,%d)", d.Sl[0], d.Sl[1])
 		}
@@ -104,7 +136,7 @@ func (d Desc) String() string {
 	for _, s := range d.Path {
 		ps = append(ps, s.String())
 	}
-	return fmt.Sprintf("%s %s %dx%d mask=%b order=%d base.%s", d.Sto, d.Typ, d.R, d.C, d.Mask, d.Order, strings.Join(ps, "."))
+	return fmt.Sprintf("%s %s %dx%d mask=%b order=%d%s base.%s", d.Sto, d.Typ, d.R, d.C, d.Mask, d.Order, dzStr(d.Dz), strings.Join(ps, "."))
 }
 
 func (d Desc) class() string {
@@ -185,6 +217,9 @@ func build(d Desc) (w world) {
 		} else {
 			s := ad.NewScalar(scalarType(d.Typ), d.Val)
 			setDerivs(s, d.Order, 2, 0)
+			if d.Val == 0 {
+				setDerivOnly(s, d.Dz, 0)
+			}
 			w.obj = s
 		}
 		w.parent = w.obj
@@ -195,6 +230,8 @@ func build(d Desc) (w world) {
 				s := v.At(k)
 				s.SetFloat64(float64(k + 1))
 				setDerivs(s, d.Order, 2, k)
+			} else if d.Dz > 0 {
+				setDerivOnly(v.At(k), d.Dz, k)
 			}
 		}
 		w.parent = v
@@ -209,6 +246,8 @@ func build(d Desc) (w world) {
 				s := m.At(k/d.C, k%d.C)
 				s.SetFloat64(float64(k + 1))
 				setDerivs(s, d.Order, 2, k)
+			} else if d.Dz > 0 {
+				setDerivOnly(m.At(k/d.C, k%d.C), d.Dz, k)
 			}
 		}
 		w.parent = m
@@ -368,6 +407,79 @@ func obs(o any, derivs bool) (out string) {
 		sb.WriteString(its.String())
 	case ad.ConstScalar:
 		obsScalarTo(&sb, v, derivs)
+	default:
+		fmt.Fprintf(&sb, "?%T", o)
+	}
+	return sb.String()
+}
+
+// isNull: value 0 and no non-zero derivative of any order. Such an element is the same
+// observable value whatever order/N it is allocated with (a sparse container may drop it)
+func isNull(s ad.ConstScalar) bool {
+	if s.GetFloat64() != 0 {
+		return false
+	}
+	o, n := s.GetOrder(), s.GetN()
+	for k := 0; o >= 1 && k < n; k++ {
+		if s.GetDerivative(k) != 0 {
+			return false
+		}
+		for l := 0; o >= 2 && l < n; l++ {
+			if s.GetHessian(k, l) != 0 {
+				return false
+			}
+		}
+	}
+	return true
+}
+
+// obsElems observes a container through its element reads ONLY (dimensions; value, order, N,
+// gradient and Hessian of every element, also of zero-valued ones; null elements normalised
+// to "0"). Unlike obs it never walks an iterator: the sparse iterators compact the container
+// they traverse, so obs is not a neutral way of taking a snapshot BEFORE an operation.
+func obsElems(o any) (out string) {
+	var sb strings.Builder
+	defer func() {
+		if r := recover(); r != nil {
+			out = sb.String() + " OBS-PANIC"
+		}
+	}()
+	one := func(s ad.ConstScalar) {
+		if s != nil && isNull(s) {
+			sb.WriteByte('0')
+			return
+		}
+		obsScalarTo(&sb, s, true)
+	}
+	switch v := o.(type) {
+	case ad.ConstVector:
+		n := v.Dim()
+		sb.WriteString("n=")
+		sb.WriteString(strconv.Itoa(n))
+		sb.WriteString(" [")
+		for i := 0; i < n; i++ {
+			if i > 0 {
+				sb.WriteByte(' ')
+			}
+			one(v.ConstAt(i))
+		}
+		sb.WriteByte(']')
+	case ad.ConstMatrix:
+		n, m := v.Dims()
+		sb.WriteString(strconv.Itoa(n))
+		sb.WriteByte('x')
+		sb.WriteString(strconv.Itoa(m))
+		sb.WriteString(" [")
+		for i := 0; i < n; i++ {
+			for j := 0; j < m; j++ {
+				sb.WriteByte(' ')
+				one(v.ConstAt(i, j))
+			}
+			sb.WriteByte(';')
+		}
+		sb.WriteByte(']')
+	case ad.ConstScalar:
+		one(v)
 	default:
 		fmt.Fprintf(&sb, "?%T", o)
 	}
